@@ -789,3 +789,30 @@ class AGreedyTarget(Adapter):
 
 for _a in (AGreedyTarget("GSy", 1), AGreedyTarget("GSi", 2)):
     register(_a)
+
+
+# --------------------------------------------------------------------------
+# DropQuery (dropout masks are draws of the strategy's generator; predictions = argmax of the stub's probabilities)
+# --------------------------------------------------------------------------
+class ADropQuery(Adapter):
+    name = "DropQuery"
+    needs_clf = True
+    independent = False
+    supports_rows = False
+    slow = True
+    n = 2          # 2 samples: every dropout mask (n_dropout_samples = 3, the minimum) is explored
+    units = ["skactiveml.pool._drop_query:DropQuery.query"]
+
+    def make(self, seed, sym=True, inputs=None, **kw):
+        if sym:
+            clusterer = make_stub_transform_clusterer()
+        else:
+            clusterer = real_table_transform_clusterer((inputs or {}).get("__cdist__", []))
+        return pool().DropQuery(random_state=seed, cluster_algo=clusterer, n_dropout_samples=3, dropout_rate=0.5, **kw)
+
+    def call(self, qs, s, b, sym, table=None, return_utilities=True):
+        return qs.query(s.X, s.y, self.clf(sym, table, s.K), fit_clf=False, candidates=s.cand, batch_size=b,
+                        return_utilities=return_utilities)
+
+
+register(ADropQuery())
